@@ -193,6 +193,7 @@ def check_program(mirobj, prog, dump, timeout_ms=20000):
         path = Path(world, decide, 2, 2)
         path.ledger = tv.Ledger()
         path.lists = {"stores": [], "handles": {}, "next": 5000}
+        path.strings = {}
         args = [z3.BitVecVal(0, 64)] + [tv.scalar_to_clif(t, v) for (n, t), v in zip(entry.params, ref_args)]
         return path, path.call("pkg.main", args)
     ex = Explorer(cons, 8, timeout_ms)
